@@ -13,6 +13,7 @@ import sys
 from pathlib import Path
 
 from harness import common
+from harness.c10 import region, WIDTH
 
 sys.path.insert(0, str(Path(__file__).resolve().parent.parent / "translate"))
 
@@ -184,14 +185,15 @@ def check_links(ctx):
                 ctx.count("programs")
                 ctx.count("eval_link")
                 ctx.count("link_" + ("ok" if ok else impl[4:]))
+                dd = S if bias is None else S + A - P - bias
                 case = {"arch": archname, "isa": isa, "reloc": rtype, "addend": A, "S": S, "P": P, "code_addr": code_addr,
-                        "pad": pad, "far_addr": far_addr, "sym_off": sym_off}
+                        "pad": pad, "far_addr": far_addr, "sym_off": sym_off, "d": dd, "region": region(rtype, dd)}
                 before = (bytes(pad) + code + bytes(4)).hex()
                 if relaxed:
                     # linker relaxation (rvc): the 4-byte jump was shrunk to C.J/C.JAL and re-relocated as bc_imm11
                     # (hole punching is C13's subject; here only the resolved target is checked)
                     ctx.count("link_relaxed")
-                    case = dict(case, reloc="bc_imm11", relaxed_from=rtype)
+                    case = dict(case, reloc="bc_imm11", relaxed_from=rtype, region=region("bc_imm11", dd))
                     reqs.append(f"rrep {isa} bc_imm11 {S} {A} {P}")
                     meta.append(("rrep", impl, case))
                     reqs.append(f"rtarget {isa} bc_imm11 {data[pad: pad + 2].hex()} {P}")
@@ -254,23 +256,23 @@ def check_links(ctx):
             key = (case["isa"], case["reloc"], case["S"], case["P"], case["addend"])
             rep[key] = m
             if impl.startswith("ok") and m == "ok false":
-                ctx.fail(f"link:{case['reloc']}@{case['isa']}:links-unrepresentable",
-                         f"{case['arch']} {case['reloc']}: symbol at {case['S']}, site at {case['P']} (addend {case['addend']}) is not "
-                         f"representable but link() succeeds", case)
+                ctx.fail(f"link:{case['reloc']}@{case['isa']}:links-{case['region']}",
+                         f"{case['arch']} {case['reloc']}: displacement {case['d']} (symbol at {case['S']}, site at {case['P']}, addend "
+                         f"{case['addend']}) lies in {case['region']}, is not representable, but link() succeeds", case)
         elif kind == "rtarget":
             ctx.count("eval_link_property")
             key = (case["isa"], case["reloc"], case["S"], case["P"], case["addend"])
             want = case["S"] + (case["addend"] if case["reloc"] == "rel32" else 0)
             if rep.get(key) == "ok true" and m != f"ok {want}":
-                ctx.fail(f"link:{case['reloc']}@{case['isa']}:wrong-target",
-                         f"{case['arch']} {case['reloc']}: symbol at {case['S']}, site at {case['P']}: the linked field designates {m[3:]}",
-                         case, spec_target=m)
+                ctx.fail(f"link:{case['reloc']}@{case['isa']}:wrong-target-{case['region']}",
+                         f"{case['arch']} {case['reloc']}: displacement {case['d']} (symbol at {case['S']}, site at {case['P']}, region "
+                         f"{case['region']}): the linked field designates {m[3:]}", case, spec_target=m)
         elif kind == "rhilo":
             c, rel = case
             ctx.count("eval_link_property")
             want = (c["S"] - c["P"]) % (1 << 32) if rel else c["S"]
             if m != f"ok {want}":
-                ctx.fail(f"link:{c['reloc']}:wrong-pair-value",
+                ctx.fail(f"link:{c['reloc']}:wrong-pair-value" + ("-" + region("abs32_imm20", c["S"]) if not rel else ""),
                          f"riscv {c['reloc']}: symbol at {c['S']}, site at {c['P']}: the pair computes {m[3:]}, expected {want}", c)
     if reqs:
         ctx.sample({"request": reqs[0], "impl": meta[0][1], "model": out[0]})
@@ -328,7 +330,7 @@ def check_asm(ctx):
         ctx.count("eval_link_property")
         want = case["S"] + case["addend"]
         if m != f"ok {want}":
-            ctx.fail(f"link:{case['reloc']}@{case['isa']}:wrong-target",
+            ctx.fail(f"link:{case['reloc']}@{case['isa']}:wrong-target-asm",
                      f"{case['arch']} assembled {case['reloc']} at {case['P']}: the linked field designates {m[3:]}, symbol is at {case['S']}", case)
 
 
